@@ -161,7 +161,7 @@ struct Node
                                                          || std::is_same_v<std::decay_t<T>, ctpg::term_value<Node>> || std::is_same_v<std::decay_t<T>, ctpg::term_value<ctpg::no_type>>> {};
     template<typename A0, typename... A,
              typename = std::enable_if_t<(is_val<A0>::value && ... && is_val<A>::value)
-                                         && !(sizeof...(A) == 0 && !std::is_same_v<std::decay_t<A0>, ctpg::term_value<Node>>)>>
+                                         && !(sizeof...(A) == 0 && !std::is_same_v<std::decay_t<A0>, ctpg::term_value<Node>> && !std::is_same_v<std::decay_t<A0>, ctpg::term_value<ctpg::no_type>>)>>
     Node(A0&& a0, A&&... a);
     Node(std::initializer_list<Node> il);
 };
@@ -414,7 +414,8 @@ struct RuleFC
         (take_arg(*tr, ids, lines, cols, std::move(a)), ...);
         tr->id = L.next_id++;
         constexpr bool is_const = std::is_const_v<std::remove_reference_t<C>>;
-        long same = static_cast<const void*>(&ctx) == tl_ctx_addr ? 1 : 0;
+        // (parse() without a context hands contextual functors a no_type: there is no caller object to compare with)
+        long same = std::is_same_v<std::decay_t<C>, ctpg::no_type> ? 1 : (static_cast<const void*>(&ctx) == tl_ctx_addr ? 1 : 0);
         if constexpr (!is_const && !std::is_same_v<std::decay_t<C>, ctpg::no_type>) ctx.mut++;
         long lv = (0 + ... + (std::is_lvalue_reference_v<A> ? 1 : 0));
         Event e; e.k = "ccall"; e.a = { r, tr->id, same, is_const ? 1 : 0, lv }; e.lst = { ids, lines, cols };
